@@ -38,7 +38,7 @@ NPROC = int(os.environ.get("VERIF_PROCS", "16"))
 # the recursive operators of the specs go one level deeper per character of a text: a 130-character str overflows the default
 # Java thread stack; _JAVA_OPTIONS is the one JVM option channel that harness/lib/tlc.py leaves open
 JVM_ENV = {"_JAVA_OPTIONS": "-Xss64m"}
-PARTS = os.environ.get("VERIF_C01_PARTS", "scalars,dump,hyp").split(",")  # development aid: run a part only
+PARTS = os.environ.get("VERIF_C01_PARTS", "scalars,dump,hyp,modes").split(",")  # development aid: run a part only
 
 # ---------------------------------------------------------------- symbols <-> characters (alpha_char / gamma_char)
 NAMED = {"\n": "LF", "\t": "TAB", "\r": "CR", "\0": "NUL", "\x85": "NEL", "\u2028": "LS", "\u2029": "PS", "\ufeff": "BOM"}
@@ -639,6 +639,9 @@ def g_dc(fields):
     if key not in _DCS:
         spec = []
         for name, ft, dflt in fields:
+            if ft["c"] == "dc":  # round 4: a dataclass inside a dataclass; its default is an instance with the inner defaults
+                spec.append((txt(name), g_dc(ft["p"]), dataclasses.field(default_factory=g_dc(ft["p"]))))
+                continue
             d = g_value(ft, dflt)
             if isinstance(d, (list, dict, set)):
                 fld = dataclasses.field(default_factory=lambda d=d: type(d)(d))
@@ -681,6 +684,8 @@ def g_type(t):
         return REG[p[0]]
     if c == "restr":
         return g_restricted(p[0])
+    if c == "any":
+        return typing.Any
     raise ValueError(f"unknown type term {t}")
 
 
@@ -695,6 +700,8 @@ def a_type(T):
         return T_(T.__name__)
     if T is type(None):
         return T_("none")
+    if T is typing.Any:
+        return T_("any")
     for name, cls in REG.items():
         if T is cls:
             return T_("reg", [name])
@@ -918,11 +925,14 @@ def _capture_stdout():
         sys.stdout = old
 
 
-def _leaf_parser(T, with_config=False):
-    p = ArgumentParser(exit_on_error=False)
+def _leaf_parser(T, with_config=False, mode="yaml", enable_path=False):
+    p = ArgumentParser(exit_on_error=False, parser_mode=mode)
     if with_config:
         p.add_argument("--config", action=ActionConfigFile)
-    p.add_argument("--x", type=T)
+    if enable_path:
+        p.add_argument("--x", type=T, enable_path=True)
+    else:
+        p.add_argument("--x", type=T)
     return p
 
 
@@ -931,7 +941,9 @@ PRINT_FLAGS = ["", "skip_null", "skip_default", "comments"]
 
 def run_leaf_case(args):
     """one (type, input) on the real code: accept, then every format on every route.  Returns plain data."""
-    idx, t, x, workdir = args
+    idx, t, x, workdir = args[:4]
+    mode = args[4] if len(args) > 4 else "yaml"  # round 4: ArgumentParser(parser_mode=mode) writes AND reads the text
+    thorough = len(args) > 5 and args[5]
     os.chdir(workdir)
     out = {"idx": idx, "accept": None, "obs": [], "t": t}
     try:
@@ -943,7 +955,7 @@ def run_leaf_case(args):
         return out
     out["t"] = t
     try:
-        p = _leaf_parser(T)
+        p = _leaf_parser(T, False, mode)
         cfg = p.parse_object({"x": copy.deepcopy(px)})  # parse_object may rewrite nested containers of its argument (C08)
     except Exception as ex:
         out["accept"] = a_error("parse_object", ex)
@@ -962,38 +974,82 @@ def run_leaf_case(args):
         out["obs"].append({"t": t, "v": base_v, "fmt": fmt, "sn": route == "print/skip_null", "route": route, "doc": doc, "re": re_, "same": same})
 
     # route 1: dump -> parse_string
-    for f in ("yaml", "json", "json_indented"):
+    if mode == "yaml":
+        formats = ("yaml", "json", "json_indented")
+    else:  # a JSON-only reader: the json formats and the default format "parser_mode" (json / json_indented); jsonnet also falls back to yaml
+        formats = ("parser_mode",) + (("json",) if (idx % 2 == 1 or thorough or mode == "json") else ()) + (("json_indented",) if (idx % 2 == 0 or thorough) else ()) \
+            + (("yaml",) if (mode == "jsonnet" and (thorough or idx % 4 == 1)) else ())
+    for f in formats:
         sf = "yaml" if f == "yaml" else "json"
         try:
             text = p.dump(copy.deepcopy(cfg), format=f, skip_none=False)  # dump may rewrite lists nested in tuples of its argument (C08)
         except Exception as ex:
             out["obs"].append({"t": t, "v": v, "fmt": sf, "route": "string/" + f, "doc": a_error("dump", ex), "re": a_error("dump", ex), "same": False, "sn": False})
             continue
-        record(sf, "string/" + f, pv, v, a_doc(text, "x", sf), lambda text=text: _leaf_parser(T).parse_string(text).x)
+        record(sf, "string/" + f, pv, v, a_doc(text, "x", sf), lambda text=text: _leaf_parser(T, False, mode).parse_string(text).x)
     # route 2: save -> parse_path
-    for f in ("yaml", "json"):
+    for f in (("yaml", "json") if mode == "yaml" else ("parser_mode",) if (mode == "json" or thorough or idx % 3 == 0) else ()):
         path = os.path.join(workdir, f"s{idx}.{f}")
         try:
-            _leaf_parser(T).save(copy.deepcopy(cfg), path, format=f, skip_none=False, overwrite=True)
+            _leaf_parser(T, False, mode).save(copy.deepcopy(cfg), path, format=f, skip_none=False, overwrite=True)
             text = open(path).read()
         except Exception as ex:
-            out["obs"].append({"t": t, "v": v, "fmt": f, "route": "save/" + f, "doc": a_error("dump", ex), "re": a_error("dump", ex), "same": False, "sn": False})
+            out["obs"].append({"t": t, "v": v, "fmt": "yaml" if f == "yaml" else "json", "route": "save/" + f, "doc": a_error("dump", ex), "re": a_error("dump", ex), "same": False, "sn": False})
             continue
-        record(f, "save/" + f, pv, v, a_doc(text, "x", f), lambda path=path: _leaf_parser(T).parse_path(path, with_meta=False).x)
+        sf = "yaml" if f == "yaml" else "json"
+        record(sf, "save/" + f, pv, v, a_doc(text, "x", sf), lambda path=path: _leaf_parser(T, False, mode).parse_path(path, with_meta=False).x)
+    # route 2b (round 4): MULTI-FILE save.  A Dict value that was loaded from its own file carries __path__; save() (multifile=True
+    # is the default) writes it to a file of that name next to the main file - without serialising it - and the main file names it
+    if mode == "yaml" and t["c"] == "dict":
+        for f in (("yaml", "json") if thorough else ("yaml", "json")[idx % 2:][:1]):  # quick: one format per input
+            ind, outd = os.path.join(workdir, f"mi{idx}"), os.path.join(workdir, f"mo{idx}{f}")
+            os.makedirs(ind, exist_ok=True)
+            os.makedirs(outd, exist_ok=True)
+            sub = os.path.join(ind, f"sub{idx}.{f}")  # a sub-file called *.json is always written as json_indented (_core.py:950-951)
+            with open(sub, "w") as fh:
+                json.dump(px, fh)  # JSON is YAML: the parser loads the same tree as parse_object got
+            try:
+                pm = _leaf_parser(T, False, mode, enable_path=True)
+                cfg2 = pm.parse_args(["--x", sub])
+                if not (isinstance(cfg2.x, dict) and "__path__" in cfg2.x):
+                    continue
+                held = {k: v_ for k, v_ in cfg2.x.items() if k != "__path__"}
+                if not deep_same(held, pv):
+                    continue  # the file route stored another value (not this check's business): nothing to compare
+            except BaseException:
+                continue
+            main = os.path.join(outd, "main." + f)
+            try:
+                _leaf_parser(T, False, mode, enable_path=True).save(cfg2, main, format=f, skip_none=False, overwrite=True)
+                files = sorted(os.listdir(outd))
+            except Exception as ex:
+                out["obs"].append({"t": t, "v": v, "fmt": f, "route": "savemulti/" + f, "doc": a_error("dump", ex), "re": a_error("dump", ex), "same": False, "sn": False})
+                continue
+            if len(files) != 2:
+                out["obs"].append({"t": t, "v": v, "fmt": f, "route": "savemulti/" + f, "doc": NULLREC, "re": {"k": "error", "v": ["savemulti:no-sub-file"]}, "same": False, "sn": False})
+                continue
+            record(f, "savemulti/" + f, pv, v, NULLREC, lambda main=main: _leaf_parser(T, False, mode, enable_path=True).parse_path(main, with_meta=False).x)
     # route 3: parse_args(args + --print_config) -> file -> parse_args(--config file) == parse_args(args)
     argv = ["--x=" + cli_text(px)]
     try:
-        base = _leaf_parser(T, True).parse_args(argv)
+        base = _leaf_parser(T, True, mode).parse_args(argv)
     except BaseException:
         base = None
     if base is not None:
         bv = a_value(base.x)
-        for flag in ("", PRINT_FLAGS[1 + idx % 3]):
+        pfmt = "yaml" if mode == "yaml" else "json"  # --print_config dumps with format="parser_mode"
+        if mode == "yaml":
+            flags = ("", PRINT_FLAGS[1 + idx % 3])
+        elif thorough:
+            flags = ("", "skip_null", "skip_default")
+        else:
+            flags = ("",) if idx % 2 else (PRINT_FLAGS[1 + (idx // 2) % 2],)
+        for flag in flags:
             opt = "--print_config" + ("=" + flag if flag else "")
             try:
                 with _capture_stdout() as buf:
                     try:
-                        _leaf_parser(T, True).parse_args(argv + [opt])
+                        _leaf_parser(T, True, mode).parse_args(argv + [opt])
                     except SystemExit:
                         pass
                 text = buf.getvalue()
@@ -1001,12 +1057,12 @@ def run_leaf_case(args):
                 with open(path, "w") as fh:
                     fh.write(text)
             except Exception as ex:
-                out["obs"].append({"t": t, "v": bv, "fmt": "yaml", "route": "print/" + flag, "doc": a_error("dump", ex), "re": a_error("dump", ex), "same": False, "sn": flag == "skip_null"})
+                out["obs"].append({"t": t, "v": bv, "fmt": pfmt, "route": "print/" + flag, "doc": a_error("dump", ex), "re": a_error("dump", ex), "same": False, "sn": flag == "skip_null"})
                 continue
-            doc = a_doc(text, "x") if flag != "comments" else NULLREC
+            doc = a_doc(text, "x", pfmt) if flag != "comments" else NULLREC
             if flag == "skip_null" and base.x is None:
                 doc = NULLREC
-            record("yaml", "print/" + flag, base.x, bv, doc, lambda path=path: _leaf_parser(T, True).parse_args(["--config", path]).x)
+            record(pfmt, "print/" + flag, base.x, bv, doc, lambda path=path: _leaf_parser(T, True, mode).parse_args(["--config", path]).x)
     return out
 
 
@@ -1020,16 +1076,16 @@ def shape_entries(shape):
             yield txt(name), e
 
 
-def build_parser(shape, style: int, with_config=False):
+def build_parser(shape, style: int, with_config=False, mode="yaml"):
     """gamma for a parser shape.  style 0: dotted options; style 1: a nested group is declared through a dataclass"""
-    p = ArgumentParser(exit_on_error=False)
+    p = ArgumentParser(exit_on_error=False, parser_mode=mode)
     if with_config:
         p.add_argument("--config", action=ActionConfigFile)
     _add_entries(p, shape["top"], style)
     if shape["subs"]:
         sub = p.add_subcommands(required=bool(shape["required"]))
         for name, entries in shape["subs"]:
-            sp = ArgumentParser(exit_on_error=False)
+            sp = ArgumentParser(exit_on_error=False, parser_mode=mode)
             _add_entries(sp, entries, style)
             sub.add_subcommand(txt(name), sp)
     return p
@@ -1102,7 +1158,8 @@ def strip_cfg(ns):
 
 
 def run_cfg_case(args):
-    idx, sh, shape, cfg, workdir = args
+    idx, sh, shape, cfg, workdir = args[:5]
+    mode = args[5] if len(args) > 5 else "yaml"
     os.chdir(workdir)
     out = {"idx": idx, "obs": [], "note": None, "shape": shape}
     style = idx % 2
@@ -1110,7 +1167,7 @@ def run_cfg_case(args):
         shape = {"top": [dict(e, t=a_type(g_type(e["t"]))) for e in shape["top"]],
                  "subs": [[n, [dict(e, t=a_type(g_type(e["t"]))) for e in es]] for n, es in shape["subs"]], "required": shape["required"]}
         out["shape"] = shape
-        p = build_parser(shape, style)
+        p = build_parser(shape, style, False, mode)
         ns = p.parse_object(cfg_tree_py(shape, cfg))
         seen = a_cfg(shape, ns)
     except Exception as ex:
@@ -1134,26 +1191,27 @@ def run_cfg_case(args):
 
     for sn in (False, True):
         for sd in (False, True):
-            for f in ("yaml", "json", "json_indented"):
+            for f in (("yaml", "json", "json_indented") if mode == "yaml" else ("json", "parser_mode") if mode == "json" else ("parser_mode",)):
                 sf = "yaml" if f == "yaml" else "json"
                 try:
-                    text = build_parser(shape, style).dump(copy.deepcopy(ns), format=f, skip_none=sn, skip_default=sd)
+                    text = build_parser(shape, style, False, mode).dump(copy.deepcopy(ns), format=f, skip_none=sn, skip_default=sd)
                 except Exception as ex:
                     out["obs"].append({"sh": sh, "cfg": cfg, "fmt": sf, "sn": sn, "sd": sd, "route": "string/" + f, "doc": a_error("dump", ex), "re": a_error("dump", ex), "same": False})
                     continue
                 # a group declared through a dataclass has a dataclass INSTANCE as its default, which skip_default never finds equal: the
                 # text then holds more than the Alg layer (dotted declaration) predicts; harmless, so the text is not compared there
                 doc = NULLREC if (sd and style == 1) else a_doc(text, None, sf)
-                record(sf, sn, sd, "string/" + f, ns, cfg, doc, lambda text=text: build_parser(shape, style).parse_string(text))
+                record(sf, sn, sd, "string/" + f, ns, cfg, doc, lambda text=text: build_parser(shape, style, False, mode).parse_string(text))
+            mfmt = "yaml" if mode == "yaml" else "json"  # what format="parser_mode" (the default of save and --print_config) writes
             if not sd:  # save has no skip_default
                 path = os.path.join(workdir, f"cs{idx}.yaml")
                 try:
-                    build_parser(shape, style).save(copy.deepcopy(ns), path, skip_none=sn, overwrite=True)
+                    build_parser(shape, style, False, mode).save(copy.deepcopy(ns), path, skip_none=sn, overwrite=True)
                     text = open(path).read()
                 except Exception as ex:
-                    out["obs"].append({"sh": sh, "cfg": cfg, "fmt": "yaml", "sn": sn, "sd": sd, "route": "save", "doc": a_error("dump", ex), "re": a_error("dump", ex), "same": False})
+                    out["obs"].append({"sh": sh, "cfg": cfg, "fmt": mfmt, "sn": sn, "sd": sd, "route": "save", "doc": a_error("dump", ex), "re": a_error("dump", ex), "same": False})
                 else:
-                    record("yaml", sn, sd, "save", ns, cfg, a_doc(text), lambda path=path: build_parser(shape, style).parse_path(path, with_meta=False))
+                    record(mfmt, sn, sd, "save", ns, cfg, a_doc(text, None, mfmt), lambda path=path: build_parser(shape, style, False, mode).parse_path(path, with_meta=False))
             # --print_config[=flags] -> file -> --config file
             inpath = os.path.join(workdir, f"ci{idx}.json")
             tree = cfg_tree_py(shape, cfg)
@@ -1162,7 +1220,7 @@ def run_cfg_case(args):
                 json.dump(tree, fh)
             argv = ["--config", inpath]
             try:
-                base = build_parser(shape, style, True).parse_args(argv)
+                base = build_parser(shape, style, True, mode).parse_args(argv)
                 bcfg = a_cfg(shape, strip_cfg(base))
             except BaseException:
                 continue
@@ -1171,7 +1229,7 @@ def run_cfg_case(args):
             try:
                 with _capture_stdout() as buf:
                     try:
-                        build_parser(shape, style, True).parse_args(argv + [opt])
+                        build_parser(shape, style, True, mode).parse_args(argv + [opt])
                     except SystemExit:
                         pass
                 text = buf.getvalue()
@@ -1179,13 +1237,13 @@ def run_cfg_case(args):
                 with open(path, "w") as fh:
                     fh.write(text)
             except Exception as ex:
-                out["obs"].append({"sh": sh, "cfg": bcfg, "fmt": "yaml", "sn": sn, "sd": sd, "route": "print/" + flags, "doc": a_error("dump", ex), "re": a_error("dump", ex), "same": False})
+                out["obs"].append({"sh": sh, "cfg": bcfg, "fmt": mfmt, "sn": sn, "sd": sd, "route": "print/" + flags, "doc": a_error("dump", ex), "re": a_error("dump", ex), "same": False})
                 continue
             if not text.strip():
-                out["obs"].append({"sh": sh, "cfg": bcfg, "fmt": "yaml", "sn": sn, "sd": sd, "route": "print/" + flags, "doc": a_error("dump", RuntimeError()), "re": a_error("dump", RuntimeError()), "same": False})
+                out["obs"].append({"sh": sh, "cfg": bcfg, "fmt": mfmt, "sn": sn, "sd": sd, "route": "print/" + flags, "doc": a_error("dump", RuntimeError()), "re": a_error("dump", RuntimeError()), "same": False})
                 continue
-            record("yaml", sn, sd, "print/" + flags, base, bcfg, NULLREC if (sd and style == 1) else a_doc(text),
-                   lambda path=path: build_parser(shape, style, True).parse_args(["--config", path]))
+            record(mfmt, sn, sd, "print/" + flags, base, bcfg, NULLREC if (sd and style == 1) else a_doc(text, None, mfmt),
+                   lambda path=path: build_parser(shape, style, True, mode).parse_args(["--config", path]))
     return out
 
 
@@ -1294,14 +1352,13 @@ def collect_cfg(rec: DumpRecorder, results, cases, origin: str, rep: Report):
             rec.meta_c.append({"origin": origin})
 
 
-def validate_dump_trace(rep: Report, rec: DumpRecorder, tmp, label: str):
-    """TLC validates everything recorded against Trace_Dump; classification of what it rejects"""
+def trace_dump_run(rec: DumpRecorder, tmp, label: str, cfg: str = "Trace_Dump"):
+    """TLC validates everything recorded against Trace_Dump (cfg: Trace_Dump = parser_mode yaml, Trace_Dump_json, Trace_Dump_jsonnet)"""
     if not (rec.accepts or rec.leafs or rec.cfgs):
-        return
+        return []
     # one TLC run per chunk: the whole trace of a thorough run does not fit a 4-8 GB heap once it is a TLC value
     chunk = 12000
     total = len(rec.accepts) + len(rec.leafs) + len(rec.cfgs)
-    by = {}
     jobs = []
     if total <= chunk:
         jobs.append(("all", 0, rec.accepts + rec.leafs + rec.cfgs))
@@ -1318,17 +1375,29 @@ def validate_dump_trace(rep: Report, rec: DumpRecorder, tmp, label: str):
         else:
             f.write_text(json.dumps({"shapes": rec.shapes, "accepts": part if kind == "accept" else [], "leafs": part if kind == "leaf" else [],
                                      "cfgs": part if kind == "cfg" else []}))
-        tr = tlc.run("Trace_Dump", "Trace_Dump", workers=DEV_WORKERS if kind == "all" else max(4, DEV_WORKERS // 2), env={"TRACE_FILE": str(f), **JVM_ENV}, timeout=2400, heap=DEV_HEAP)
+        workers = DEV_WORKERS if (kind == "all" and cfg == "Trace_Dump") else max(4, DEV_WORKERS // 2) if cfg == "Trace_Dump" else max(2, DEV_WORKERS // 4)
+        tr = tlc.run("Trace_Dump", cfg, workers=workers, env={"TRACE_FILE": str(f), **JVM_ENV}, timeout=2400, heap=DEV_HEAP)
         f.unlink()
         return job, tr
 
     from concurrent.futures import ThreadPoolExecutor
     with ThreadPoolExecutor(max_workers=2) as ex:
-        results = list(ex.map(run_chunk, jobs))
+        return list(ex.map(run_chunk, jobs))
+
+
+def validate_dump_trace(rep: Report, rec: DumpRecorder, tmp, label: str, results=None, mode: str = "yaml"):
+    """classification of what TLC rejects (results: what trace_dump_run returned; run here when not given)"""
+    if not (rec.accepts or rec.leafs or rec.cfgs):
+        return
+    if results is None:
+        results = trace_dump_run(rec, tmp, label)
+    total = len(rec.accepts) + len(rec.leafs) + len(rec.cfgs)
+    by = {}
+    tag = "" if mode == "yaml" else f" [parser_mode={mode}]"
     for (kind, a0, part), tr in results:
-        rep.add_tlc(f"Trace_Dump[{kind}:{a0}]", tr)
+        rep.add_tlc(f"Trace_Dump{'' if mode == 'yaml' else '_' + mode}[{kind}:{a0}]", tr)
         if tr.errors or tr.distinct != 2 * len(part):
-            machinery_failure(PID, f"Trace_Dump[{kind}:{a0}] failed (distinct={tr.distinct}, expected {2 * len(part)}):\n" + tr.stdout[-3000:])
+            machinery_failure(PID, f"Trace_Dump{tag}[{kind}:{a0}] failed (distinct={tr.distinct}, expected {2 * len(part)}):\n" + tr.stdout[-3000:])
         for p in tr.printed:
             if isinstance(p, list) and p and p[0] == "R":
                 by.setdefault((p[1], p[2] + a0), []).append(p[3])
@@ -1344,62 +1413,74 @@ def validate_dump_trace(rep: Report, rec: DumpRecorder, tmp, label: str):
                 by.setdefault((kind, n), []).append("ref-other" if tlc_ok else "alg-validator-disagrees")
     for o in rec.leafs:
         if o["re"]["k"] != "error" and o["v"]["k"] not in ("int", "bool", "null"):
-            rep.note_nontrivial("leaf:" + json.dumps([o["t"], o["v"], o["fmt"]], sort_keys=True))
+            rep.note_nontrivial("leaf:" + mode + json.dumps([o["t"], o["v"], o["fmt"]], sort_keys=True))
     for o in rec.cfgs:
-        rep.note_nontrivial("cfg:" + json.dumps([o["sh"], o["cfg"], o["fmt"], o["sn"], o["sd"]], sort_keys=True))
+        rep.note_nontrivial("cfg:" + mode + json.dumps([rec.shapes[o["sh"] - 1], o["cfg"], o["fmt"], o["sn"], o["sd"]], sort_keys=True))
     for (kind, idx), clauses in sorted(by.items()):
         if kind == "accept":
             o = rec.accepts[idx - 1]
-            rep.add_drift("Alg prediction of the accepted value differs (C02's concern)", {"type": show_type(o["t"]), "input": show_value(o["x"]), "stored": show_value(o["v"])})
+            rep.add_drift("Alg prediction of the accepted value differs (C02's concern)" + tag, {"type": show_type(o["t"]), "input": show_value(o["x"]), "stored": show_value(o["v"])})
             continue
         if kind == "leaf":
             o = rec.leafs[idx - 1]
             T, val = show_type(o["t"]), show_value(o["v"])
             case = {"type": T, "value": val, "format": o["fmt"], "route": o["route"], "reparsed": show_value(o["re"]), "failed_clauses": sorted(set(clauses)),
                     "abstract": {"t": o["t"], "v": o["v"], "doc": o["doc"], "re": o["re"]},
-                    "python": f"p=ArgumentParser(exit_on_error=False); p.add_argument('--x', type={T}); cfg=p.parse_object({{'x': ...}})  # cfg.x == {val}; "
+                    "parser_mode": mode,
+                    "python": f"p=ArgumentParser(exit_on_error=False, parser_mode={mode!r}); p.add_argument('--x', type={T}); cfg=p.parse_object({{'x': ...}})  # cfg.x == {val}; "
                               f"route {o['route']} gave {show_value(o['re'])}"}
-            what = f"{T} value {val} written as {o['fmt']} ({o['route']}) is re-parsed as {show_value(o['re'])}"
+            what = f"{T} value {val} written as {o['fmt']} ({o['route']}) is re-parsed as {show_value(o['re'])}{tag}"
         else:
             o = rec.cfgs[idx - 1]
             case = {"shape": rec.shapes[o["sh"] - 1], "cfg": show_value(o["cfg"]), "format": o["fmt"], "skip_none": o["sn"], "skip_default": o["sd"], "route": o["route"],
-                    "reparsed": show_value(o["re"]), "failed_clauses": sorted(set(clauses)), "abstract": {"cfg": o["cfg"], "doc": o["doc"], "re": o["re"]}}
-            what = f"configuration {show_value(o['cfg'])} dumped as {o['fmt']} (skip_none={o['sn']}, skip_default={o['sd']}, {o['route']}) is re-parsed as {show_value(o['re'])}"
+                    "reparsed": show_value(o["re"]), "failed_clauses": sorted(set(clauses)), "abstract": {"cfg": o["cfg"], "doc": o["doc"], "re": o["re"]}, "parser_mode": mode}
+            what = f"configuration {show_value(o['cfg'])} dumped as {o['fmt']} (skip_none={o['sn']}, skip_default={o['sd']}, {o['route']}) is re-parsed as {show_value(o['re'])}{tag}"
         for c in sorted(set(clauses)):
             if c.startswith("ref-dev:"):
                 for fam in c[len("ref-dev:"):].split("+"):
                     rep.violation(FAMILY_KEYS.get(fam, f"dump-roundtrip:{fam}"), what, case)
             elif c.startswith("ref"):
-                rep.violation(f"dump-roundtrip:other:{kind}:{o['route']}:{(show_type(o['t']) + '=' + show_value(o['v'])) if kind == 'leaf' else show_value(o['cfg'])}"[:160], what, case)
+                rep.violation(f"dump-roundtrip:other:{'' if mode == 'yaml' else mode + ':'}{kind}:{o['route']}:{(show_type(o['t']) + '=' + show_value(o['v'])) if kind == 'leaf' else show_value(o['cfg'])}"[:160], what, case)
             else:
-                rep.add_drift(f"{c}: the real code agrees with Ref but not with the Alg transcription", case)
+                rep.add_drift(f"{c}: the real code agrees with Ref but not with the Alg transcription{tag}", case)
 
 
-def dump_level(rep: Report, tier: str, tmp, mc, rec: "DumpRecorder") -> None:
-    cfgname = f"MC_Dump_{tier}"
+def dump_level(rep: Report, tier: str, tmp, mc, rec: "DumpRecorder", mode: str = "yaml") -> None:
+    sfx = "" if mode == "yaml" else "_" + mode
+    cfgname = f"MC_Dump_{tier}{sfx}"
     rep.add_tlc(cfgname, mc)
     if mc.errors:
         if mc.violated:
-            rep.violation("model:dump:" + ",".join(mc.violated),
-                          f"TLC: invariant {mc.violated} violated in MC_Dump (a round-trip failure of the Alg pipeline that no named deviation explains, "
+            rep.violation("model:dump" + sfx.replace("_", ":") + ":" + ",".join(mc.violated),
+                          f"TLC: invariant {mc.violated} violated in {cfgname} (a round-trip failure of the Alg pipeline that no named deviation explains, "
                           "or a serialising branch that does not mirror its deserialising branch)", {"tlc_errors": mc.errors, "counterexample": mc.cex[:6000]})
         else:
-            machinery_failure(PID, "TLC failed on MC_Dump:\n" + mc.stdout[-3000:])
+            machinery_failure(PID, f"TLC failed on {cfgname}:\n" + mc.stdout[-3000:])
     emitted = [p for p in mc.printed if isinstance(p, dict) and "case" in p]
     cex = [p for p in mc.printed if isinstance(p, dict) and "cex" in p]
     shapes = [p for p in mc.printed if isinstance(p, dict) and "shapes" in p]
     if not mc.errors and (len(emitted) * 2 != mc.distinct or len(shapes) != 1):
-        machinery_failure(PID, f"MC_Dump emitted {len(emitted)} cases for {mc.distinct} states")
+        machinery_failure(PID, f"{cfgname} emitted {len(emitted)} cases for {mc.distinct} states")
+    if shapes and shapes[0].get("mode", "yaml") != mode:
+        machinery_failure(PID, f"{cfgname} ran with ParserMode = {shapes[0].get('mode')}, expected {mode}")
     shapes = shapes[0]["shapes"] if shapes else []
     fams = {}
     for p in cex:
         for h in p["hz"] or ["<none>"]:
             fams[h] = fams.get(h, 0) + 1
-    rep.extra["dump_model"] = {"cases": len(emitted), "leaf_cases": sum(1 for p in emitted if p["case"]["kind"] == "leaf"),
+    rep.extra["dump_model" + sfx] = {"cases": len(emitted), "leaf_cases": sum(1 for p in emitted if p["case"]["kind"] == "leaf"),
                                "cfg_cases": sum(1 for p in emitted if p["case"]["kind"] == "cfg"),
                                "cases_violating_plain_law_found_by_TLC": len(cex), "families_found_by_TLC": fams,
                                "leaf_inputs_rejected_in_model": sum(1 for p in emitted if p["case"]["kind"] == "leaf" and p["v"]["k"] == "error"),
                                "leaf_inputs_undecided_in_model": sum(1 for p in emitted if p["case"]["kind"] == "leaf" and p["v"]["k"] == "unsure")}
+    # non-vacuity of the mode instances: json.loads is exact (no scalar-level family may be needed), jsonnet's re-emission must be FOUND
+    if mode == "json" and not mc.errors:
+        bad = sorted(set(fams) - {"skip-default-equal-but-other-type", "skip-default-inside-dict-value", "skip-default-required-subcommand-raises", "subcommand-selector-not-dumped",
+                                  "union-enum-member-serialises-anything", "decimal-serialised-as-float"})
+        if bad:
+            machinery_failure(PID, f"{cfgname}: the model needs scalar-level deviations {bad} although json.loads inverts json.dumps")
+    if mode == "jsonnet" and not mc.errors and not {"jsonnet-integral-float-read-as-int", "json-nonfinite-float", "json-raw-line-break"} <= set(fams):
+        machinery_failure(PID, f"{cfgname}: TLC did not find the jsonnet families (found {sorted(fams)})")
     # ---- replay: every (type, input) and every (shape, configuration) of the model on real parsers
     leaf_cases, seen = [], set()
     for p in sorted(emitted, key=lambda p: json.dumps(p["case"], sort_keys=True)):
@@ -1417,20 +1498,37 @@ def dump_level(rep: Report, tier: str, tmp, mc, rec: "DumpRecorder") -> None:
             if key not in seen:
                 seen.add(key)
                 cfg_cases.append((c["sh"], shapes[c["sh"] - 1], c["cfg"]))
-    work = tmp / "work"
+    if mode != "yaml":
+        # every parse in jsonnet mode evaluates each text with libjsonnet (~50 ms): the mode instances are replayed on a sample -
+        # the (type, input) cases for which TLC predicts a failure, lists a hazard family, or says that the YAML reader would
+        # have had one ("hy": where the mode matters) - 1 in n_hot of them - and 1 in n_leaf of the others
+        hot = {json.dumps([p["case"]["t"], p["case"]["x"]], sort_keys=True) for p in emitted
+               if p["case"]["kind"] == "leaf" and (p["hz"] or p.get("hy") or (p["v"]["k"] not in ("error", "unsure") and json.dumps(p["rt"], sort_keys=True) != json.dumps(p["v"], sort_keys=True)))}
+        n_hot, n_leaf, n_cfg = {("json", "quick"): (1, 5, 6), ("json", "thorough"): (1, 3, 3), ("jsonnet", "quick"): (4, 20, 20), ("jsonnet", "thorough"): (4, 12, 12)}[(mode, tier)]
+        all_leaf, all_cfg = len(leaf_cases), len(cfg_cases)
+        is_hot = [json.dumps([c[0], c[1]], sort_keys=True) in hot for c in leaf_cases]
+        rank, nh = [], 0
+        for h in is_hot:  # the n-th hot case / the n-th other case
+            rank.append(nh if h else None)
+            nh += 1 if h else 0
+        leaf_cases = [c for i, c in enumerate(leaf_cases) if (is_hot[i] and rank[i] % n_hot == 0) or (not is_hot[i] and i % n_leaf == 0)]
+        cfg_cases = [c for i, c in enumerate(cfg_cases) if i % n_cfg == 0]
+        rep.extra["dump_replay_sampling" + sfx] = {"leaf_inputs_of_the_model": all_leaf, "replayed": len(leaf_cases), "predicted_failing_or_hazard": len(hot), "configurations_of_the_model": all_cfg,
+                                                  "configurations_replayed": len(cfg_cases)}
+    work = tmp / ("work" + sfx)
     work.mkdir(exist_ok=True)
     for s in shapes:
         rec.shape_index(s)
     cfg_cases = [(rec.shape_index(shape), shape, cfg) for _, shape, cfg in cfg_cases]
-    res = run_pool(run_leaf_case, [(i, t, x, str(work)) for i, (t, x) in enumerate(leaf_cases)])
+    res = run_pool(run_leaf_case, [(i, t, x, str(work), mode, tier == "thorough") for i, (t, x) in enumerate(leaf_cases)])
     collect_leaf(rec, res, leaf_cases, "model", rep)
-    res = run_pool(run_cfg_case, [(i, sh, shape, cfg, str(work)) for i, (sh, shape, cfg) in enumerate(cfg_cases)])
+    res = run_pool(run_cfg_case, [(i, sh, shape, cfg, str(work), mode) for i, (sh, shape, cfg) in enumerate(cfg_cases)])
     collect_cfg(rec, res, cfg_cases, "model", rep)
-    rep.extra["dump_replay"] = {"leaf_inputs": len(leaf_cases), "configurations": len(cfg_cases), "leaf_observations": len(rec.leafs), "cfg_observations": len(rec.cfgs)}
-    if rec.leafs:
+    rep.extra["dump_replay" + sfx] = {"leaf_inputs": len(leaf_cases), "configurations": len(cfg_cases), "leaf_observations": len(rec.leafs), "cfg_observations": len(rec.cfgs)}
+    if rec.leafs and mode == "yaml":
         rep.sample({"leaf_observation": {"type": show_type(rec.leafs[0]["t"]), "value": show_value(rec.leafs[0]["v"]), "route": rec.leafs[0]["route"],
                                          "reparsed": show_value(rec.leafs[0]["re"])}})
-    if rec.cfgs:
+    if rec.cfgs and mode == "yaml":
         o = rec.cfgs[len(rec.cfgs) // 2]
         rep.sample({"cfg_observation": {"cfg": show_value(o["cfg"]), "format": o["fmt"], "skip_none": o["sn"], "skip_default": o["sd"], "route": o["route"], "reparsed": show_value(o["re"])}})
 
@@ -1441,7 +1539,7 @@ HAZARD_POOL = ["1e3", "1E3", "1e+3", "1.e3", "-9e1", "._1", "._", "1_0e3", "a\x8
                " x", "x ", "a: b", "a #b", "- a", "? a", "[1]", "{a}", "{a: 1}", "#c", "!t", "&a", "*a", "|", ">", "'q'", '"q"', "%d", "@a", "`a", "a\nb", "a\n", "\na",
                "a\tb", "\ta", "a\\b", "---", "...", "-", ":", "?", "a:", ":a", "é", "日本", "\U0001f600", "a b", "x" * 90 + " y " + "z" * 30, "abc", "RED", "None", "{}", "[]"]
 NAME_POOL = ["a", "b", "c", "x", "y", "lr", "name", "on", "null", "n", "yes", "key1", "A_b"]
-ENUM_NAMES = [["RED", "GREEN"], ["on", "off"], ["A", "B", "C"], ["null", "true"], ["x"]]
+ENUM_NAMES = [["RED", "GREEN"], ["on", "off"], ["A", "B", "C"], ["null", "true"], ["x"], ["1e3", "1", "~"], ["yes", "None", ".inf"]]
 
 
 def V_(k, text):
@@ -1455,7 +1553,7 @@ def _strategies():
     text = st.one_of(st.sampled_from(HAZARD_POOL), st.sampled_from(HAZARD_POOL), st.text(max_size=10),
                      st.text(alphabet="0123456789_.eE+-:", min_size=1, max_size=8), st.one_of(*[st.from_regex(rx, fullmatch=True) for rx in pats]))
     text = text.filter(lambda s: len(s) <= 130 and all(not ("\ud800" <= c <= "\udfff") for c in s))
-    leaf_t = st.one_of(st.sampled_from([T_("str"), T_("int"), T_("float"), T_("bool")]), st.just(T_("str")),
+    leaf_t = st.one_of(st.sampled_from([T_("str"), T_("int"), T_("float"), T_("bool"), T_("any")]), st.just(T_("str")),
                        st.sampled_from(ENUM_NAMES).map(lambda ns: T_("enum", [syms(n) for n in ns])),
                        st.lists(st.one_of(text.map(lambda s: V_("str", s)), st.integers(-3, 30).map(lambda i: V_("int", str(i))), st.just(dict(NULLREC))),
                                 min_size=1, max_size=3, unique_by=lambda v: json.dumps(v)).map(lambda vs: T_("literal", vs)))
@@ -1533,6 +1631,11 @@ def _strategies():
             child.map(lambda t: T_("tuplee", [t])),
             st.tuples(st.sampled_from([T_("str"), T_("str"), T_("int")]), child).map(lambda kv: T_("dict", list(kv))),
             dc_of(simple_field_t).flatmap(lambda d: st.sampled_from([T_("union", [d, T_("none")]), T_("list", [d]), T_("dict", [T_("str"), d]), T_("tuple", [d, T_("int")])])),
+            # round 4: a dataclass inside a dataclass (the inner one is a nested group of the outer one's parser)
+            dc_of(simple_field_t).flatmap(lambda d: st.sampled_from([
+                T_("dc", [[syms("i"), d, {"k": "ns", "v": [[f[0], f[2]] for f in d["p"]]}], [syms("n"), T_("int"), V_("int", "0")]]),
+                T_("dc", [[syms("q"), T_("str"), V_("str", "z")], [syms("i"), d, {"k": "ns", "v": [[f[0], f[2]] for f in d["p"]]}]])]))
+            .flatmap(lambda d: st.sampled_from([T_("union", [d, T_("none")]), T_("list", [d]), T_("dict", [T_("str"), d])])),
         )
 
     types = st.recursive(leaf_t, extend, max_leaves=6)
@@ -1563,6 +1666,11 @@ def _strategies():
             return st.booleans().map(lambda b: V_("bool", "true" if b else "false"))
         if c == "none":
             return st.just(dict(NULLREC))
+        if c == "any":  # strings that look like numbers / null / mappings, numbers, None, small containers of them
+            scal = st.one_of(text.map(lambda s: V_("str", s)), ints.map(lambda i: V_("int", str(i))), floats.map(a_float), st.just(dict(NULLREC)),
+                             st.booleans().map(lambda b: V_("bool", "true" if b else "false")))
+            return st.one_of(scal, scal, st.lists(scal, max_size=3).map(lambda xs: {"k": "list", "v": xs}),
+                             st.lists(st.tuples(text.map(lambda s: V_("str", s)), scal), max_size=2, unique_by=lambda kv: json.dumps(kv[0])).map(lambda kvs: {"k": "dict", "v": [list(kv) for kv in kvs]}))
         if c == "reg":
             texts = st.sampled_from(REG_TEXTS[p[0]]).map(lambda s: V_("str", s))
             if p[0] == "Rdec":
@@ -1727,11 +1835,12 @@ def concretise_shape(raw):
     return shape, cfgs
 
 
-def dump_traces(rep: Report, tier: str, tmp, rec: "DumpRecorder", leaf_cases, raw_shapes) -> None:
-    work = tmp / "work2"
+def dump_traces(rep: Report, tier: str, tmp, rec: "DumpRecorder", leaf_cases, raw_shapes, mode: str = "yaml") -> None:
+    sfx = "" if mode == "yaml" else "_" + mode
+    work = tmp / ("work2" + sfx)
     work.mkdir(exist_ok=True)
     n0l, n0c = len(rec.leafs), len(rec.cfgs)
-    res = run_pool(run_leaf_case, [(i, t, x, str(work)) for i, (t, x) in enumerate(leaf_cases)])
+    res = run_pool(run_leaf_case, [(i, t, x, str(work), mode, tier == "thorough") for i, (t, x) in enumerate(leaf_cases)])
     collect_leaf(rec, res, leaf_cases, "hypothesis", rep)
     cfg_cases = []
     for raw in raw_shapes:
@@ -1746,10 +1855,10 @@ def dump_traces(rep: Report, tier: str, tmp, rec: "DumpRecorder", leaf_cases, ra
             if key not in seen:
                 seen.add(key)
                 cfg_cases.append((sh, shape, cfg))
-    res = run_pool(run_cfg_case, [(i, sh, shape, cfg, str(work)) for i, (sh, shape, cfg) in enumerate(cfg_cases)])
+    res = run_pool(run_cfg_case, [(i, sh, shape, cfg, str(work), mode) for i, (sh, shape, cfg) in enumerate(cfg_cases)])
     skipped = sum(1 for r in res if r["note"])
     collect_cfg(rec, [r for r in res if not r["note"]], cfg_cases, "hypothesis", rep)
-    rep.extra["dump_traces"] = {"leaf_inputs": len(leaf_cases), "shapes": len(raw_shapes), "configurations": len(cfg_cases), "configurations_not_fixpoints_skipped": skipped,
+    rep.extra["dump_traces" + sfx] = {"leaf_inputs": len(leaf_cases), "shapes": len(raw_shapes), "configurations": len(cfg_cases), "configurations_not_fixpoints_skipped": skipped,
                                 "leaf_observations": len(rec.leafs) - n0l, "cfg_observations": len(rec.cfgs) - n0c}
 
 
@@ -1777,9 +1886,12 @@ def main(argv):
         timing[name] = clock.s()
 
     try:
-        with ThreadPoolExecutor(max_workers=3) as pool:
+        MODES = [m for m in ("json", "jsonnet") if "modes" in PARTS]
+        with ThreadPoolExecutor(max_workers=6) as pool:
             fut_sc = pool.submit(tlc.run, "MC_Scalars", f"MC_Scalars_{tier}", workers=DEV_WORKERS, timeout=2400, heap=DEV_HEAP, env=JVM_ENV) if "scalars" in PARTS else None
             fut_du = pool.submit(tlc.run, "MC_Dump", f"MC_Dump_{tier}", workers=DEV_WORKERS, timeout=2400, heap=DEV_HEAP, env=JVM_ENV) if "dump" in PARTS else None
+            # round 4: the same bounded grammar with ArgumentParser(parser_mode="json" | "jsonnet") (cfg: ParserMode <- ...)
+            fut_mode = {m: pool.submit(tlc.run, "MC_Dump", f"MC_Dump_{tier}_{m}", workers=max(2, DEV_WORKERS // 8), timeout=2400, heap=DEV_HEAP, env=JVM_ENV) for m in MODES}
             # meanwhile: the hypothesis-driven inputs (pure python)
             texts = hypothesis_texts(1000 if tier == "quick" else 12000, tier) if "scalars" in PARTS else []
             floats = hypothesis_floats(300 if tier == "quick" else 3000) if "scalars" in PARTS else []
@@ -1796,6 +1908,15 @@ def main(argv):
                 mark("scalar_traces_observed")
                 fut_ts = pool.submit(tlc.run, "Trace_Scalars", "Trace_Scalars", workers=DEV_WORKERS, env={"TRACE_FILE": str(f), **JVM_ENV}, timeout=2400, heap=DEV_HEAP)
             rec = DumpRecorder()
+            recs = {m: DumpRecorder() for m in MODES}
+            fut_tr = {}
+            for m in MODES:  # the mode instances first: TLC validates their observations while the yaml-mode replay runs
+                dump_level(rep, tier, tmp, fut_mode[m].result(), recs[m], m)
+                if "hyp" in PARTS:  # hypothesis-driven (type, input) cases beyond the bounds, in that mode (quick: every other one)
+                    dump_traces(rep, tier, tmp, recs[m], leaf_cases[:: (2 if m == "json" else 6)] if tier == "thorough" else leaf_cases[(m == "json")::6],
+                                raw_shapes[:: (4 if m == "json" else 20)] if tier == "thorough" else [], m)
+                fut_tr[m] = pool.submit(trace_dump_run, recs[m], tmp, m, f"Trace_Dump_{m}")
+                mark(f"dump_replay_{m}_done")
             if fut_du is not None:
                 mc_du = fut_du.result()
                 mark("MC_Dump_done")
@@ -1806,6 +1927,9 @@ def main(argv):
                 mark("dump_traces_observed")
             validate_dump_trace(rep, rec, tmp, "all")
             mark("Trace_Dump_done")
+            for m in MODES:
+                validate_dump_trace(rep, recs[m], tmp, m, fut_tr[m].result(), m)
+            mark("Trace_Dump_modes_done")
             if fut_ts is not None:
                 scalar_traces_classify(rep, fut_ts.result(), texts, floats, obs, fobs)
     finally:
